@@ -124,12 +124,16 @@ class Check(object):
         """structural obligation: no feasible path violates; bad_pcs = path conditions (Bool terms) of violating paths"""
         enc = smt.Encoder(pi_bounds=False)
         goal = tm.lor(*bad_pcs) if bad_pcs else tm.FALSE
-        script = enc.script([], [goal], tactic='(check-sat)')
+        script = enc.script([], [goal], tactic='(check-sat)') if goal is not tm.FALSE else None
         return self.add(Ob(name, 'prop', script, 'unsat', sample or dict(obligation=name, violating_paths=len(bad_pcs)), replay, key, fns, family=family))
 
     # ------------------------------------------------------------------------------------------
     def solve_all(self, workers=16):
         def one(ob):
+            if ob.script is None:
+                # no violating path survived symbolic execution: the residual formula is literally `false`
+                ob.result = dict(verdict='unsat', time=0.0, output='', solver='none(residual formula is false)', hash='false:' + ob.name)
+                return ob
             try:
                 to = ob.timeout or self.qtimeout
                 ob.result = smt.run_solver(ob.script, to, workdir=self.scratch, tag=self.pid)
